@@ -26,7 +26,8 @@ EXPLANATION = (
     "(SB-TWIN) const() agrees with to_bool() by construction or by qualifier; (OR-SEQ) nested decoding walks the "
     "element types forward, each slice bounded by its own size; (SB-CONST) class names, BIT_SIZE constants, "
     "BIT_SIZE = INTEGER + FRACTIONAL, registries and the constant-inference candidate list agree; (FX-MODSTATE) "
-    "nothing in the types package keeps module-level state.  It does NOT decide equality over all 2^w patterns nor "
+    "nothing in the types package keeps module-level state; (OR-EXACT) a rounding call in the fixed-point codecs keeps "
+    "at least as many decimals as the finest shipped type has fractional bits.  It does NOT decide equality over all 2^w patterns nor "
     "float rounding in the fractional part."
 )
 NOT_DECIDED = "exhaustive equality over all 2^w patterns; float rounding in the fractional part"
